@@ -834,14 +834,17 @@ LEVEL_TEXT = ("Proved in Lean 4 over an arbitrary field, about definitions REGEN
               "to hold for the real functions) and exact arithmetic, rotateE(eulerAngles(rotateE(r))) = rotateE(r) for EVERY angle "
               "triple r, all 12 axis orders, moving and fixed frames, both away from the gimbal lock (general branch, |cos b| resp. |sin b| > lim) and "
               "exactly on the lock (degenerate branch); eulerAngles reads sin b, c = sqrt(..) = |cos b| and cos b (sin c, cos c) from the "
-              "matrix (euler_arguments), and the first angle from M*rotate(a2,-r0). "
+              "matrix (euler_arguments), and the first angle from M*rotate(a2,-r0). Between threshold and exact lock (c <= lim, last "
+              "angle set to 0): the entry holding sin b (cos b) is reproduced exactly and every entry of the row of the first axis and "
+              "of the column of the last axis (5 of 9) differs by at most 2c <= 2 lim (euler_nearlock_partial, all 12 orders, both frames). "
               "Axis-angle: fromAxisAngle/fromAxisAngleU/fromAxisAngle(v), angle(), axisAngle(), Matrix4::rotate(axis,angle), rotate(Vec3), "
               "Matrix4::axisAngle() are regenerated too; proved: fromAxisAngleU of a unit axis is a unit quaternion, its matrix is "
               "Rodrigues' matrix I + sin t [u]x + (1-cos t)[u]x^2, Matrix4::rotate(axis,angle) is that matrix about axis/|axis|, and for "
               "every unit quaternion q fromAxisAngle(q.axisAngle()) = +-q (angle-0 branch included) so rotate(M.axisAngle()) = M; "
               "matrix(rotation(M)) = M for EVERY proper rotation matrix M (M*Mt = I, det M = 1; rotation_matrix_full_holds, all four "
               "branches, each under its own guard; rotation_guards_exhaustive: for an arbitrary matrix the guards are exhaustive and the "
-              "radicand of the branch taken is >= 1; rotation_branch_sound_so3: each branch alone over any field with 2 != 0); "
+              "radicand of the branch taken is >= 1; rotation_branch_sound_so3: each branch alone over any field with 2 != 0; "
+              "rotation_unit_so3: the quaternion returned is a unit quaternion); "
               "(AB)t = Bt At, inverse(At) = inverse(A)t, inverse(AB) = inverse(B) inverse(A) for Matrix4 and Matrix3 with the code's own "
               "operations, M*p - M*q = M%(p-q) (points vs vectors, point_vector_transform). These code paths are also "
               "executed exactly over the prime field with stand-ins for cos/sin/acos/atan2 (rational parametrisation of the unit circle) and compared with the model and with "
@@ -867,16 +870,18 @@ LEVEL_NOTE = ("Trusted: Lean kernel; the expression translator tools/props/c20_t
               "The axis-angle and Euler theorems assume "
               "TrigOK/TrigAA/TrigDouble/CmpStd for cos/sin/atan2/sqrt (proved for the real functions in examples); "
               "the behaviour of eulerAngles() when the cosine (sine) c of the middle angle is in (0, lim] (there the last angle is set to 0, "
-              "an approximation; the bound error <= O(c) <= O(16 eps) is NOT proved, only validated numerically); numeric tolerance: 64*eps for every rotation conversion "
+              "an approximation; the bound error <= 2c is proved for 5 of the 9 entries only, see below, the rest validated numerically); numeric tolerance: 64*eps for every rotation conversion "
               "(quaternion, matrix, axis-angle at every angle incl. 10^-k; Euler angles of rotateE-built and of quaternion-built "
               "matrices at every distance from the lock incl. lock +- 10^-k). The Euler "
               "theorems are about exact arithmetic with abstract trigonometric functions; the branch threshold lim is a parameter (>= 0). "
               "The Euler/rotate/axis-angle definitions are tied to the source by the translator AND executed exactly by the model driver "
               "against the real templates over the prime field with the stand-in trigonometry (ops m4rote, m4euler, m4rotaa, qaxang, ...; "
               "a differential test of the arithmetic and branch structure, the stand-ins are not real trigonometry); the real "
-              "eulerAngles()/rotateE() are exercised numerically as well. NOT proved: the band 0 < c <= lim of eulerAngles between "
-              "euler_roundtrip (lim < c) and euler_roundtrip_locked (c = 0), where the last angle is set to 0; a reviewer suggested an "
-              "entrywise <= 2c bound, which is stated as a comment in AslProps/C20.lean but not proved. "
+              "eulerAngles()/rotateE() are exercised numerically as well. PARTLY proved: the band 0 < c <= lim of eulerAngles between "
+              "euler_roundtrip (lim < c) and euler_roundtrip_locked (c = 0), where the last angle is set to 0: euler_nearlock_partial "
+              "bounds 5 of the 9 entries by 2 lim; the entrywise bound for all 9 entries (euler_nearlock_full, lim <= 1/2) is a def, "
+              "NOT proved: the other four entries depend on the first extracted angle, read by atan2 from a point at distance "
+              "sqrt(1 - c^2 sin^2 g) from the origin (numerically the ratio error/c stays <= 2). "
               "The solve_ model is hand-written (K-tied), not regenerated; its inner jj-loop is modelled as the simultaneous row update "
               "it is equal to. Theorems assume field laws: they say nothing about rounding. Two defects were found and repaired in "
               "/repo (fix: commits ddac4e2 Matrix3 operator*, 59184ad eulerAngles near gimbal lock); two more reported by an independent hunt "
